@@ -65,7 +65,8 @@ def classes(tier):
 
     for p in ([None] if tier == "quick" else [None, 0x32]):
         for op in range(256):
-            if op not in X.PRE_BYTES:
+            heavy = 0x80 <= op <= 0xBF or 0xE0 <= op <= 0xEF
+            if op not in X.PRE_BYTES and (tier != "quick" or not heavy or op % 8 == 0):
                 out.append(("rust-hidden", p, op, None, None))
     out.sort(key=lambda c: (0 if c[0] == "rust-hidden" and (0x80 <= c[2] <= 0xBF or 0xE0 <= c[2] <= 0xEF) else 1, 0 if c[2] in HEAVY else 1))
     ys = [0x40, 0x90, 0xC8, 0xE0, 0xF0, 0x45, 0x6C, 0x04, 0xCB, 0xC4, 0x2C, 0xFD] if tier == "quick" else \
